@@ -288,6 +288,10 @@ func Sleep(d time.Duration) {
 // (0 = back to an arbitrary non-decreasing clock). Natively the real clock is used.
 func ConcreteClock(step int64) { veriftime.Control(step) }
 
+// NCSFail tells the engine's credit-service stub that the k-th request (0-based) is received and then fails.
+// Natively a no-op: the harness's own recording endpoint follows the same plan.
+func NCSFail(k int) {}
+
 // NCSPosts returns the receipts posted to the (stubbed) credit service. Engine only: natively the harness
 // owns a recording HTTP endpoint instead.
 func NCSPosts() []ncsclient.ReceiptPayload { panic("verifnd.NCSPosts is engine-only") }
